@@ -120,15 +120,15 @@ def c_from_raw_var_bytes(it, recv, a):
     """(C17) Ok(key) only if EVERY decoded point passed is_on_curve & is_torsion_free itself; the first point failing it
     yields Err(PointMalformed).  (The length-field arithmetic before the loop is outside this unit's tracked objects.)"""
     b = a[0]
-    it.ctx.exits.append(("err_if", VOpaque("lt", [VOpaque("len", [b]), Sym("u64::SIZE")]), "Error::NotEnoughBytes"))
+    it.ctx.exits.append(("err_if", VOpaque("lt", [VOpaque("len", [b]), 8]), "Error::NotEnoughBytes"))
     ln = VOpaque("havoc:len")
     it.ctx.exits.append(("err_if", VOpaque("eq", [ln, 0]), canon(VOpaque("Error::InvalidData"))))
-    inner = VOpaque("checked_mul", [ln, Sym("G1Affine::RAW_SIZE")])
+    inner = VOpaque("checked_mul", [ln, 97])
     it.ctx.exits.append(("try", f"{inner.canon()} is None => Err(Error::NotEnoughBytes)"))
-    outer = VOpaque("checked_add", [Sym("u64::SIZE"), VOpaque("some_of", [inner])])
+    outer = VOpaque("checked_add", [8, VOpaque("some_of", [inner])])
     it.ctx.exits.append(("try", f"{outer.canon()} is None => Err(Error::NotEnoughBytes)"))
     it.ctx.exits.append(("err_if", VOpaque("ne", [VOpaque("len", [b]), VOpaque("some_of", [outer])]), "Error::NotEnoughBytes"))
-    chunks = Sym(VOpaque("chunks_exact", [VOpaque("slice", [b, Sym("u64::SIZE"), "end"]), Sym("G1Affine::RAW_SIZE")]).canon())
+    chunks = Sym(VOpaque("chunks_exact", [VOpaque("slice", [b, 8, "end"]), 97]).canon())
     elem = Sym(chunks.path + "[*]")
     pt = VOpaque("G1Affine::from_slice_unchecked", [elem])
     valid = VOpaque("and", [VOpaque("is_on_curve", [pt]), VOpaque("is_torsion_free", [pt])])
